@@ -1,0 +1,5 @@
+//go:build !verif
+
+package main
+
+func verifYield(point, path string) {}
